@@ -1,5 +1,5 @@
 SPECIFICATION GSpec
-CONSTANTS Bug = "none"  MaxLen = 4
+CONSTANTS Bug = "none"  MaxLen = 3
  Kinds = {"stream_encoder", "easy_encoder", "stream_encoder_mt", "block_encoder", "raw_encoder", "raw_lzma1_encoder",
    "alone_encoder", "index_encoder", "microlzma_encoder", "stream_decoder", "stream_decoder_mt", "auto_decoder",
    "alone_decoder", "lzip_decoder", "raw_decoder", "index_decoder", "block_decoder", "microlzma_decoder",
@@ -9,8 +9,6 @@ CONSTANTS Bug = "none"  MaxLen = 4
  Updatable = {"stream_encoder", "easy_encoder", "stream_encoder_mt", "raw_encoder", "block_encoder"}
  OneShots = {"easy_buffer_encode", "stream_buffer_encode", "raw_buffer_encode", "block_buffer_encode",
    "stream_buffer_decode", "raw_buffer_decode"}
- OpNames = {"Init", "CodeSome", "CodeAll", "Update", "End", "StrToFilters", "PropsDecode", "BlockHeaderDecode",
-   "FilterFlagsDecode", "FiltersFree", "FiltersCopy", "StrFromFilters", "StrListFilters", "FreeStr", "IndexInit",
-   "IndexBufferDecode", "IndexAppend", "IndexEnd", "IndexCat", "IndexDup", "IndexHashInit", "IndexHashEnd", "OneShot"}
+ OpNames = {"StrToFilters", "PropsDecode", "BlockHeaderDecode", "FilterFlagsDecode", "FiltersFree", "FiltersCopy", "StrFromFilters", "StrListFilters", "FreeStr"}
 ACTION_CONSTRAINT Emit
 CHECK_DEADLOCK FALSE
